@@ -693,14 +693,19 @@ CFG_ATOMS = {
 }
 
 
-def plan(t):
-    """TLC runs of a tier: (mode, maxlen, pruned to the grammar, atom sets, print records up to length)"""
+def plan(t, sd=0):
+    """TLC runs of a tier: (mode, maxlen, pruned to the grammar, atom sets, print records up to length).
+    Grammatical numerical expressions have odd length (k atoms, k-1 operators or commas, bracket pairs)."""
     if t == "quick":
-        return [("num", 4, False, NUM_CFGS, 3), ("num", 6, True, NUM_CFGS, 99),
+        deep = 1 + sd % 3                   # one of the plain atom sets goes to 7 tokens, by seed
+        return [("num", 4, False, NUM_CFGS, 3), ("num", 5, True, [c for c in NUM_CFGS if c != deep], 99),
+                ("num", 7, True, [deep], 99),
                 ("log", 3, False, [1, 3], 3), ("log", 5, True, LOG_CFGS, 99),
-                ("tmpl", 5, False, TMPL_CFGS, 5)], {"num": 600, "log": 600}
+                ("tmpl", 5, False, TMPL_CFGS, 4)], {"num": 600, "log": 600}
+    deep = [1 + sd % 8, 1 + (sd + 3) % 8]
     return [("num", 5, False, NUM_CFGS, 4), ("num", 7, True, NUM_CFGS, 99),
-            ("log", 4, False, LOG_CFGS, 3), ("log", 7, True, LOG_CFGS, 99),
+            ("log", 4, False, LOG_CFGS, 3), ("log", 6, True, [c for c in LOG_CFGS if c not in deep], 99),
+            ("log", 7, True, deep, 99),
             ("tmpl", 6, False, TMPL_CFGS, 6)], {"num": 6000, "log": 6000}
 
 
@@ -710,7 +715,11 @@ def run(replay=None):
     wd = C.workdir(PID)
     t = C.tier()
     sd = C.seed()
-    runs, ndeep = plan(t)
+    runs, ndeep = plan(t, sd)
+    only = os.environ.get("VERIF_C18_MODES")          # development aid: restrict to some families
+    if only:
+        runs = [r for r in runs if r[0] in only.split(",")]
+        ndeep = {k: (v if k in only.split(",") else 0) for k, v in ndeep.items()}
     if replay:
         body = json.load(open(replay))
         r0 = C.run_tlc(wd, "DipExprGen", cfg_text("tmpl", 0, False, "enum", [1]))
@@ -728,8 +737,19 @@ def run(replay=None):
     states = trans = 0
     refines_bad = []
     per_run = []
-    for mode, maxlen, prune, cfgs, emitmax in runs:
-        r = C.run_tlc(wd, "DipExprGen", cfg_text(mode, maxlen, prune, "enum", cfgs, emitmax=emitmax))
+    # the TLC runs are independent: a few at a time, sharing the cores (JVM start-up dominates the small ones)
+    from concurrent.futures import ThreadPoolExecutor
+    C.run_tlc(wd, "DipExprGen", cfg_text("tmpl", 0, False, "enum", [1], emit=False))      # copies the specs once
+    par = max(1, min(4, len(runs)))
+    wk = max(1, C.NCPU // par)
+
+    def one(run_):
+        mode, maxlen, prune, cfgs, emitmax = run_
+        return C.run_tlc(wd, "DipExprGen", cfg_text(mode, maxlen, prune, "enum", cfgs, emitmax=emitmax),
+                         workers=wk, copy_specs=False)
+    with ThreadPoolExecutor(par) as ex:
+        results = list(ex.map(one, runs))
+    for (mode, maxlen, prune, cfgs, emitmax), r in zip(runs, results):
         if r.violated:
             refines_bad.append(f"{mode}/{maxlen}/{prune}: " + r.cex[:400])
         for x in r.records:
@@ -751,10 +771,12 @@ def run(replay=None):
                 if a not in META["atoms"]:
                     raise C.MachineryError(f"atom {a} unknown to the spec")
     for mode in ("num", "log"):
+        if not ndeep[mode]:
+            continue
         items = deep_items(mode, ndeep[mode], sd * 31 + (1 if mode == "num" else 2), CFG_ATOMS[mode])
         fin = os.path.join(wd, f"deep_{mode}.json")
         json.dump(items, open(fin, "w"))
-        r = C.run_tlc(wd, "DipExprGen", cfg_text(mode, 0, True, "file", [1]), env={"DIPEXPR_IN": fin})
+        r = C.run_tlc(wd, "DipExprGen", cfg_text(mode, 0, True, "file", [1]), env={"DIPEXPR_IN": fin}, copy_specs=False)
         if r.violated:
             refines_bad.append(f"{mode}/file: " + r.cex[:400])
         for x in r.records:
@@ -800,10 +822,7 @@ def run(replay=None):
             else:
                 scen = dict(o["scenario"])
                 scen["record"] = {k: rec[k] for k in rec if k != "_src"}
-                v = V.fail(scen, o["expected"], o["observed"], o["clause"], tags=o["tags"], failure=o["failure"])
-                if v == "known-finding":
-                    k = ",".join(sorted(set(o["tags"]) - {"direct", "embedded"}))
-                    fails_by_tag[k] = fails_by_tag.get(k, 0) + 1
+                V.fail(scen, o["expected"], o["observed"], o["clause"], tags=o["tags"], failure=o["failure"])
     if refines_bad:
         for b in refines_bad[:3]:
             V.notes.append("TLC Refines counterexample: " + b)
@@ -830,7 +849,7 @@ def run(replay=None):
         "classes": classes,
         "tlc_runs": per_run,
         "tlc_refines": "ok" if not refines_bad else "counterexample",
-        "known_finding_cases_by_tags": fails_by_tag,
+        "known_finding_cases": dict(V.findings.hits),
     })
     V.assumptions += [
         "Quantity arithmetic and unit conversion themselves are C04/C06's subject; here their composition by the solvers is checked",
